@@ -13,11 +13,13 @@ from props.C11 import _coord_map
 REQUIRED_THEOREMS = ['Usid.C12.group_sizes', 'Usid.C12.reduced_anc_all_removed', 'Usid.C12.reduced_anc_keeps_labels',
                      'Usid.C12.memory_rejects']
 RULE = ('generator datasets (1-3 dimensions per side, sizes 1-4, any storage order, integer-valued data) x non-empty subsets '
-        'of their dimensions (thorough: EVERY non-empty subset) x {mean, sum, max, min, std}; in-memory result compared '
+        'of their dimensions (thorough: EVERY non-empty subset) x {mean, sum, max, min, std} x the wrapper\'s view (file order, '
+        'sorted at construction, toggled once or twice); in-memory result compared '
         'with the group-by of the raw data; with to_hdf5 the call must either produce a valid Main dataset whose every '
         'element is the reduction of exactly the source elements sharing its remaining coordinates, or raise; '
         'non-trivial = at least one multi-valued dimension reduced and one kept')
 FUNCS = ['mean', 'sum', 'max', 'min', 'std']
+VIEWS = ['file', 'file', 'sorted', 'toggled', 'toggled_twice']
 TRUSTED = ['float rounding of the summation order inside dask reductions is not modelled: sum/max/min/mean on integer '
            'tokens are compared exactly, std with relative tolerance 1e-9']
 
@@ -36,13 +38,15 @@ def generate(seed, tier):
         if tier == 'thorough':
             subsets = [list(c) for k in range(1, len(labs) + 1) for c in itertools.combinations(labs, k)]
             for dims in subsets:
-                cases.append({'ds': ds, 'dims': dims, 'func': rng.choice(FUNCS), 'to_file': True})
+                cases.append({'ds': ds, 'dims': dims, 'func': rng.choice(FUNCS), 'to_file': True,
+                              'view': rng.choice(VIEWS)})
             continue
         k = rng.randint(1, len(labs))
         dims = rng.sample(labs, k)
         if i % 9 == 8:
             dims = list(ds[rng.choice(['pos', 'spec'])]['labels'])      # a whole side
-        cases.append({'ds': ds, 'dims': dims, 'func': rng.choice(FUNCS), 'to_file': rng.random() < 0.7})
+        cases.append({'ds': ds, 'dims': dims, 'func': rng.choice(FUNCS), 'to_file': rng.random() < 0.7,
+                      'view': rng.choice(VIEWS)})
     return cases
 
 
@@ -74,7 +78,10 @@ def run_impl(inp, work):
     out = {}
     ufunc = getattr(da, inp['func'])
     with h5py.File(path, 'r+') as f:
-        u = USIDataset(f['G/main'])
+        view = inp.get('view', 'file')
+        u = USIDataset(f['G/main'], sort_dims=(view == 'sorted'))
+        for _ in range({'toggled': 1, 'toggled_twice': 2}.get(view, 0)):
+            u.toggle_sorting()
         r = call(u.reduce, inp['dims'], ufunc=ufunc, to_hdf5=False)
         if r[0] == 'err':
             out['mem'] = {'err': r[1], 'cls': r[2]}
@@ -144,8 +151,19 @@ def oracle(inp, obs):
         moved = np.transpose(nd, keep + list(axes)).reshape(want_shape + [-1]) if keep else nd.reshape(1, -1)
         want = np.array([_apply(func, row) for row in moved.reshape(-1, moved.shape[-1])])
         got = np.array(mem['flat'])
-        if mem['shape'] != want_shape or len(got) != len(want) or not all(_close(func, a, b) for a, b in zip(got, want)):
-            fails.append('memory: %s over %s differs from the same reduction applied to the N-D form' % (func, inp['dims']))
+        ok = mem['shape'] == want_shape and len(got) == len(want) and all(_close(func, a, b) for a, b in zip(got, want))
+        if not ok and inp.get('view', 'file') in ('sorted', 'toggled'):
+            # the sorted N-D form lists the remaining dimensions slowest first within each side: also acceptable
+            kp = len(ds['pos']['sizes'])
+            order = list(reversed(ds['pos']['rate'])) + [kp + d for d in reversed(ds['spec']['rate'])]
+            keep_s = [a for a in order if a not in axes]
+            moved = np.transpose(nd, keep_s + list(axes)).reshape([sizes[a] for a in keep_s] + [-1]) if keep_s else nd.reshape(1, -1)
+            want_s = np.array([_apply(func, row) for row in moved.reshape(-1, moved.shape[-1])])
+            ok = [x for x in mem['shape'] if x != 1] == [sizes[a] for a in keep_s if sizes[a] != 1] and \
+                len(got) == len(want_s) and all(_close(func, a, b) for a, b in zip(got, want_s))
+        if not ok:
+            fails.append('memory: %s over %s differs from the same reduction applied to the N-D form (view %s)'
+                         % (func, inp['dims'], inp.get('view', 'file')))
     # ---- on file
     if inp['to_file'] and 'file' in obs:
         fl = obs['file']
@@ -242,11 +260,12 @@ def project(inp, obs):
 
 
 def distribution(cases, obs):
-    d = {'to_file': 0, 'file_written': 0, 'file_raised': 0, 'whole_side': 0}
+    d = {'to_file': 0, 'file_written': 0, 'file_raised': 0, 'whole_side': 0, 'view_sorted': 0}
     for f in FUNCS:
         d[f] = 0
     for c, o in zip(cases, obs):
         d[c['func']] += 1
+        d['view_sorted'] += c.get('view', 'file') in ('sorted', 'toggled')
         d['to_file'] += c['to_file']
         if c['to_file'] and 'file' in o:
             d['file_raised'] += 'err' in o['file']
